@@ -638,6 +638,24 @@ func genLattice(a *Args, r *Rng, emit func(c *lcase), history func(base lcase, s
 		history(base, steps)
 	}
 
+	// ---- a policy document edited after the verifier was constructed (outside wf: must agree with the model) ----
+	for _, entry := range allEntries {
+		for _, sg := range []int{2, 1} {
+			for _, other := range []int{0, 2} {
+				s0 := okSc()
+				s0.Sig = sg
+				c := lcase{Fam: "mutated-doc", Entry: entry, OCI: docCfg{Kind: 3, Level: "strict"}, Blob: docCfg{Kind: other, Level: "strict"}, PM: pmOK(), Impl: implCfg{Kind: 1}, Sc: s0}
+				if entry == "VerifyBlob" || entry == "NVerifyBlob" {
+					c.OCI, c.Blob = docCfg{Kind: other, Level: "strict"}, docCfg{Kind: 3, Level: "permissive", Global: sg == 2}
+				}
+				if entry == "NVerify" {
+					c.N = nreqCfg{Max: 2, Ref: 2, Items: []scCfg{s0}}
+				}
+				put(c)
+			}
+		}
+	}
+
 	// ---- constructor refusals ----
 	for _, entry := range allEntries {
 		put(lcase{Fam: "construct", Entry: entry, TSNil: true, OCI: doc(2, strict), Blob: doc(2, strict), PM: pmOK(), Impl: implCfg{Kind: 1}, Sc: okSc()})
